@@ -278,6 +278,12 @@ func c12stepCases(rng *sx.Rng, n int) {
 			}
 		default:
 			d.del("matrix")
+			// no matrix at all, or one without dimensions (only unknown keys, an empty setup, ...): the empty
+			// permutation is the valid one and changes nothing, tokens included
+			if rng.Chance(50) {
+				d.set("matrix", sx.Pick(rng, []*dv{dMap(dkv{"soft_fail", dBool(true)}), dMap(), dMap(dkv{"setup", dMap()}, dkv{"note", dStr("{{matrix}}")}),
+					dMap(dkv{"adjustments", dList()}, dkv{"x", dInt(1)}), dNull()}))
+			}
 			perm = map[string]string{}
 			if rng.Chance(30) {
 				perm["os"] = "linux"
